@@ -88,6 +88,8 @@ func (e *c10E) src() string {
 		return e.B.src() + ".map(e->e+" + e.A.src() + ")"
 	case "laccept":
 		return e.B.src() + ".accept(e->e<" + e.A.src() + ")"
+	case "lguard":
+		return e.B.src() + ".map(e->e+0%(e-" + e.A.src() + "))"
 	case "ltop":
 		return e.B.src() + ".top(" + e.A.src() + ")"
 	case "lskip":
@@ -148,6 +150,8 @@ func (e *c10E) coq() string {
 		return "(LMap " + e.A.coq() + " " + e.B.coq() + ")"
 	case "laccept":
 		return "(LAccept " + e.A.coq() + " " + e.B.coq() + ")"
+	case "lguard":
+		return "(LGuard " + e.A.coq() + " " + e.B.coq() + ")"
 	case "ltop":
 		return "(LTop " + e.A.coq() + " " + e.B.coq() + ")"
 	case "lskip":
@@ -205,6 +209,19 @@ func (e *c10E) hasArg() bool {
 	return false
 }
 
+// some literal element of a closed list expression (the last one of the first literal found), 7 if there is none
+func (e *c10E) lastLit() int64 {
+	if e.Op == "llit" && len(e.Xs) > 0 {
+		return e.Xs[len(e.Xs)-1]
+	}
+	for _, k := range e.kids() {
+		if k.Op[0] == 'l' {
+			return k.lastLit()
+		}
+	}
+	return 7
+}
+
 func (e *c10E) hasConst() bool {
 	if e.Op == "lconst" {
 		return true
@@ -232,7 +249,7 @@ func (e *c10E) nofold() bool {
 		return (e.A.hasArg() || e.B.hasArg()) && e.A.nofold() && e.B.nofold() && e.C.nofold() && e.D.nofold()
 	case "lnumbers":
 		return e.A.hasArg()
-	case "lmap", "laccept", "ltop", "lskip":
+	case "lmap", "laccept", "ltop", "lskip", "lguard":
 		return e.hasArg() && e.B.nofold()
 	}
 	if !e.hasArg() {
@@ -267,7 +284,7 @@ func (e *c10E) alloc(next *int, consts []int) int {
 		h := *next
 		*next++
 		return h
-	case "lmap", "laccept", "ltop", "lskip":
+	case "lmap", "laccept", "ltop", "lskip", "lguard":
 		e.B.alloc(next, consts)
 		h := *next
 		*next++
@@ -312,6 +329,9 @@ type c10Prog struct {
 	NewObjs  int      `json:"new_objs,omitempty"` // list objects Generate creates
 	Class    string   `json:"class"`              // lazy-const | spare-const | plain-const | no-const | opaque:<name>
 	ListBody bool     `json:"list_body,omitempty"`
+	// ListArg: source of an expression whose value (a list OBJECT, made once per session on the same generator and
+	// kept by the harness) is passed as first argument `l` to every evaluation of this program
+	ListArg string `json:"list_arg,omitempty"`
 }
 
 func c10MkProg(name string, defs []c10Def, body *c10E, listBody bool) *c10Prog {
@@ -332,7 +352,7 @@ func c10MkProg(name string, defs []c10Def, body *c10E, listBody bool) *c10Prog {
 			ds = append(ds, "DL "+d.E.coq())
 			k := "plain-const"
 			switch d.E.Op {
-			case "lmap", "laccept", "ltop", "lskip", "lconcat", "lnumbers":
+			case "lmap", "laccept", "ltop", "lskip", "lconcat", "lnumbers", "lguard":
 				k = "lazy-const"
 			case "lappend":
 				k = "spare-const"
@@ -382,6 +402,7 @@ func lAppend(l, x *c10E) *c10E {
 }
 func lMap(k, l *c10E) *c10E    { return &c10E{Op: "lmap", A: k, B: l} }
 func lAccept(k, l *c10E) *c10E { return &c10E{Op: "laccept", A: k, B: l} }
+func lGuard(v, l *c10E) *c10E  { return &c10E{Op: "lguard", A: v, B: l} }
 func lTop(n, l *c10E) *c10E    { return &c10E{Op: "ltop", A: n, B: l} }
 func lSkip(n, l *c10E) *c10E   { return &c10E{Op: "lskip", A: n, B: l} }
 func lConcat(a, b *c10E) *c10E { return &c10E{Op: "lconcat", A: a, B: b} }
@@ -407,6 +428,7 @@ func c10Pool() []*c10Prog {
 	a0, a1 := zS(sArg(0)), zS(sArg(1))
 	lazy := []c10Def{dL(lLit(1, 2, 3)), dL(lMap(sLit(1), lConst(0)))}
 	spare := []c10Def{dL(lLit(1, 2)), dL(lAppend(lConst(0), zS(sLit(3))))}
+	guard := []c10Def{dL(lLit(5, 6, 7, 8)), dL(lGuard(sLit(7), lConst(0)))}
 	return []*c10Prog{
 		// the probed C11 example: lazy constant, first c[x] materialises it, append on it
 		c10MkProg("lazy-index-append", lazy, zAdd(zIndex(lConst(1), a0), zSize(lAppend(lConst(1), a0))), false),
@@ -431,6 +453,18 @@ func c10Pool() []*c10Prog {
 		c10MkProg("runtime-lists", nil, zSum(lConcat(lSingle(a0), lNumbers(sAdd(sArg(1), sLit(1))))), false),
 		c10MkProg("numbers-lazy-result", nil, lSkip(sLit(1), lMap(sArg(1), lNumbers(sAdd(sArg(0), sLit(2))))), true),
 		c10MkProg("eval-const", lazy, lForce(lAccept(sAdd(sArg(0), sLit(3)), lConst(1))), true),
+		// lazy constants whose materialisation FAILS at an element k > 0 (the closure e->e+0%(e-7) fails on 7)
+		c10MkProg("guard-append", guard, lAppend(lConst(1), a0), true),
+		c10MkProg("guard-size-try", guard, zTry(zSize(lAppend(lConst(1), a0)), zAdd(a0, zS(sLit(100)))), false),
+		c10MkProg("guard-index", guard, zIndex(lConst(1), a0), false),
+		c10MkProg("guard-top", guard, lTop(sAdd(sArg(0), sLit(1)), lConst(1)), true),
+		c10MkProg("guard-first-sum", guard, zAdd(zFirst(lTop(sAdd(sArg(0), sLit(1)), lConst(1))), zTry(zSum(lMap(sArg(0), lConst(1))), a1)), false),
+		c10MkProg("guard-map-eval", guard, lForce(lMap(sArg(0), lConst(1))), true),
+		c10MkProg("guard-reverse-or-top", guard, zTry(zSize(lReverse(lTop(sAdd(sArg(0), sLit(2)), lConst(1)))), zSize(lTop(sArg(0), lConst(1)))), false),
+		c10MkProg("guard-never-fails", []c10Def{dL(lLit(5, 6, 7, 8)), dL(lGuard(sLit(99), lConst(0)))}, zAdd(zIndex(lConst(1), a0), zSize(lAppend(lConst(1), a1))), false),
+		c10MkProg("guard-at-run-time", lazy, zTry(zSize(lGuard(sArg(0), lConst(1))), zS(sLit(-1))), false),
+		c10MkProg("guard-chain", []c10Def{dL(lNumbers(sLit(6))), dL(lGuard(sLit(4), lConst(0))), dL(lMap(sLit(10), lConst(1))), dL(lConcat(lConst(2), lConst(0)))},
+			zTry(zIndex(lConst(3), a0), zSize(lTop(sArg(1), lConst(2)))), false),
 		// outside the modelled fragment
 		c10Opaque("lazy-mul-example", "let c=[1,2,3].map(e->e*2); c[a0]+c.append(a1).size()"),
 		c10Opaque("recursion", "func fib(n) if n<2 then n else fib(n-1)+fib(n-2); fib(a0+3)+a1"),
@@ -451,11 +485,52 @@ func c10Pool() []*c10Prog {
 	}
 }
 
+func c10FullPool() []*c10Prog { return append(c10Pool(), c10FailingPool()...) }
+
+
+// lazy constants whose MATERIALISATION fails at an element k > 0 (List.Eval must leave the object untouched), and
+// the same for a lazy list object the harness passes as argument to several evaluations
+func c10FailingPool() []*c10Prog {
+	kinds := [][2]string{
+		{"index", "[0,1,2,3,0].map(i->[10,20,30][i])"},
+		{"type", "[1,2,\"x\",4].map(e->e*2)"},
+		{"modulo", "[4,2,0,5].map(e->10%e)"},
+		{"guard", "[5,6,7,8].map(e->e+0%(e-7)).map(e->e+1)"},
+		{"throw-runtime", "[1,2,3,4].map(e->if e=3 then throw(\"t\") else e)"},
+	}
+	consumers := [][2]string{
+		{"size", "%s.size()+a0"}, {"append", "%s.append(a0).string()"}, {"string", "%s.string()+a0"}, {"index", "%s[a0]"},
+		{"reduce", "%s.reduce((s,e)->s+e)+a0"}, {"first", "%s.first()+a0"}, {"top", "%s.top(a0).string()"},
+	}
+	var ps []*c10Prog
+	for _, k := range kinds {
+		for _, co := range consumers {
+			ps = append(ps, c10Opaque("failing-"+k[0]+"-"+co[0], "let c="+k[1]+"; "+fmt.Sprintf(co[1], "c")))
+		}
+	}
+	makers := [][2]string{
+		{"failing-index", "numbers(5).map(i->[10,20,30][i])"},
+		{"failing-modulo", "[4,2,0,5].map(e->10%e)"},
+		{"lazy", "numbers(4).map(e->e*3)"},
+		{"spare", "[1,2].append(3)"},
+	}
+	for _, m := range makers {
+		for _, co := range consumers {
+			p := c10Opaque("listarg-"+m[0]+"-"+co[0], fmt.Sprintf(co[1], "l"))
+			p.Args = []string{"l", "a0", "a1"}
+			p.ListArg = m[1]
+			ps = append(ps, p)
+		}
+	}
+	return ps
+}
+
 // ---------------------------------------------------------------- random programs of the modelled fragment
 
 type c10Gen struct {
-	r      *Rng
-	nl, ns int // list / scalar constants available
+	r       *Rng
+	nl, ns  int  // list / scalar constants available
+	guarded bool // some constant may fail while it is iterated: no skip (iterator.Skip yields the errors of skipped elements), no `let n=c.size();`
 }
 
 func (g *c10Gen) sexp(d int, wantArg bool) *c10E {
@@ -506,6 +581,9 @@ func (g *c10Gen) lexp(d int) *c10E {
 	case 4:
 		return lTop(g.count(), g.lexp(d-1))
 	case 5:
+		if g.guarded {
+			return lGuard(sArg(g.r.Pick(2)), g.lexp(d-1))
+		}
 		return lSkip(g.count(), g.lexp(d-1))
 	case 6:
 		return lConcat(g.lexp(d-1), g.lexp(d-1))
@@ -572,6 +650,9 @@ func (g *c10Gen) closedL(d int) *c10E {
 	case 5:
 		return lTop(sLit(int64(g.r.Pick(4))), g.closedL(d-1))
 	case 6:
+		if g.guarded {
+			return lGuard(sLit(int64(g.r.Pick(9))), g.closedL(d-1))
+		}
 		return lSkip(sLit(int64(g.r.Pick(3))), g.closedL(d-1))
 	case 7:
 		return lConcat(g.closedL(d-1), g.closedL(d-1))
@@ -584,7 +665,7 @@ func (g *c10Gen) closedL(d int) *c10E {
 
 func c10RandomProg(r *Rng, n int) *c10Prog {
 	for {
-		g := &c10Gen{r: r}
+		g := &c10Gen{r: r, guarded: r.Chance(0.3)}
 		var defs []c10Def
 		nd := 1 + r.Pick(3)
 		for i := 0; i < nd; i++ {
@@ -594,7 +675,12 @@ func c10RandomProg(r *Rng, n int) *c10Prog {
 			}
 			defs = append(defs, dL(e))
 			g.nl++
-			if r.Chance(0.15) {
+			if g.guarded && i == 0 && nd > 1 {
+				// make sure there is a constant with a failing element behind a good prefix
+				defs = append(defs, dL(lGuard(sLit(e.lastLit()), lConst(0))))
+				g.nl++
+			}
+			if r.Chance(0.15) && !g.guarded {
 				defs = append(defs, dS(r.Pick(g.nl)))
 				g.ns++
 			}
@@ -611,7 +697,16 @@ func c10RandomProg(r *Rng, n int) *c10Prog {
 			ok = body.nofold() && body.hasArg() && body.hasConst()
 		}
 		if ok {
-			return c10MkProg(fmt.Sprintf("random-%d", n), defs, body, listBody)
+			p := c10MkProg(fmt.Sprintf("random-%d", n), defs, body, listBody)
+			if !g.guarded {
+				return p
+			}
+			// a definition over a failing constant may fail to fold (e.g. c1.append(4) with c1 failing): it would
+			// stay a run-time let, which is outside the model - such programs are dropped (decided on the real code)
+			s := c10NewSession(true)
+			if fn, err := s.generate(p); err == nil && len(fn.lists) == p.NewObjs {
+				return p
+			}
 		}
 	}
 }
@@ -741,16 +836,33 @@ func (o c10Out) coq() string {
 
 // evaluate with the given arguments; of a list result the host pulls at most j elements and stops
 func c10Eval(f funcGen.Func[value.Value], args []int64, j int, modelled bool) c10Out {
-	v, err := c10Call(f, args)
+	v, err := c10Call(f, nil, args)
 	return c10Consume(v, err, j, modelled)
 }
 
-func c10Call(f funcGen.Func[value.Value], args []int64) (value.Value, error) {
-	vs := make([]value.Value, len(args))
-	for i, a := range args {
-		vs[i] = value.Int(a)
+// larg != nil: the pooled list object is passed as first argument
+func c10Call(f funcGen.Func[value.Value], larg value.Value, args []int64) (value.Value, error) {
+	var vs []value.Value
+	if larg != nil {
+		vs = append(vs, larg)
+	}
+	for _, a := range args {
+		vs = append(vs, value.Int(a))
 	}
 	return f.Eval(vs...)
+}
+
+// the list object for programs with a list argument: made by evaluating the maker expression once on fg
+func c10MakeList(fg *value.FunctionGenerator, src string) value.Value {
+	f, _, err := fg.Generate(src)
+	if err != nil {
+		fatal("c10: list maker %s does not generate: %v", src, err)
+	}
+	v, err := f.Eval()
+	if err != nil {
+		fatal("c10: list maker %s fails: %v", src, err)
+	}
+	return v
 }
 
 // what the host does with the result (possibly long after the evaluation returned it)
@@ -804,16 +916,22 @@ func c10Consume(v value.Value, err error, j int, modelled bool) c10Out {
 var c10OracleCache = map[string]c10Out{}
 
 func c10Oracle(p *c10Prog, args []int64, j int) c10Out {
-	key := fmt.Sprintf("%s|%v|%d", p.Src, args, j)
+	key := fmt.Sprintf("%s|%s|%v|%d", p.Src, p.ListArg, args, j)
 	if o, ok := c10OracleCache[key]; ok {
 		return o
 	}
-	f, _, err := value.New().Generate(p.Src, p.Args...)
+	fg := value.New()
+	f, _, err := fg.Generate(p.Src, p.Args...)
 	var o c10Out
 	if err != nil {
 		o = c10Out{Kind: "str", S: "generate-error"}
 	} else {
-		o = c10Eval(f, args, j, p.Coq != "")
+		var larg value.Value
+		if p.ListArg != "" {
+			larg = c10MakeList(fg, p.ListArg)
+		}
+		v, err := c10Call(f, larg, args)
+		o = c10Consume(v, err, j, p.Coq != "")
 	}
 	c10OracleCache[key] = o
 	return o
@@ -956,6 +1074,7 @@ func c10RunSession(c *c10Case, sum *Summary) *c10Result {
 	}
 	lastSeen := map[seenKey]int{}
 	var pending []func()
+	pooled := map[string]value.Value{} // maker source -> the ONE list object of this session
 	for n, ev := range c.Events {
 		switch ev.Kind {
 		case "gen":
@@ -983,7 +1102,15 @@ func c10RunSession(c *c10Case, sum *Summary) *c10Result {
 		case "eval":
 			fn := s.funcs[ev.K]
 			before := fn.allReps()
-			v, err := c10Call(fn.f, ev.Args)
+			var larg value.Value
+			if fn.prog.ListArg != "" {
+				if pooled[fn.prog.ListArg] == nil {
+					pooled[fn.prog.ListArg] = c10MakeList(s.fg, fn.prog.ListArg)
+				}
+				larg = pooled[fn.prog.ListArg]
+				sum.Count("list_argument", "pooled list object passed as argument")
+			}
+			v, err := c10Call(fn.f, larg, ev.Args)
 			after := fn.allReps()
 			res.outs = append(res.outs, c10Out{})
 			res.coqEvents = append(res.coqEvents, "")
@@ -1076,7 +1203,11 @@ func c10Describe(c *c10Case, res *c10Result) map[string]any {
 	var lines []string
 	for n, ev := range c.Events {
 		if ev.Kind == "gen" {
-			lines = append(lines, fmt.Sprintf("%d: f%d := Generate(%q, a0, a1)", n, ev.K, ev.Prog.Src))
+			la := ""
+			if ev.Prog.ListArg != "" {
+				la = "   [l = ONE list object per session, made by evaluating " + ev.Prog.ListArg + " on this generator, passed to every evaluation]"
+			}
+			lines = append(lines, fmt.Sprintf("%d: f%d := Generate(%q, %s)%s", n, ev.K, ev.Prog.Src, strings.Join(ev.Prog.Args, ", "), la))
 		} else {
 			o := ""
 			if res != nil && n < len(res.outs) {
@@ -1108,7 +1239,7 @@ func cmdC10(seed int64, tier, outDir string) {
 	cw.prelude = fmt.Sprintf("Definition go_caps := caps_of_tables %s %s.\n", c10NatList(evalCap), c10NatList(appCap))
 	sum.Extra["go_append_capacities"] = map[string]any{"eval_loop": evalCap[:20], "append_to_full": appCap[:20]}
 
-	pool := c10Pool()
+	pool := c10FullPool()
 	var cases []*c10Case
 	if optReplay != "" {
 		var c c10Case
